@@ -10,7 +10,7 @@ use turmoil_fs::shim::tokio::fs as tfs;
 
 use crate::model::{Errc, Model};
 
-pub const FILES: [&str; 4] = ["/a", "/d/a", "/d/b", "/e/a"];
+pub const FILES: [&str; 5] = ["/a", "/d/a", "/d/b", "/e/a", "/b"];
 pub const DIRS: [&str; 3] = ["/d", "/e", "/d/s"];
 pub const DATA: [&[u8]; 2] = [b"xy", b"Z"];
 
